@@ -16,20 +16,20 @@ func init() {
 
 // slotExceptions: "Type.Field" -> reason, for obligations that do not apply.
 var slotExceptions = map[string]string{
-	"SelectStatement.IsRawQuery":      "derived from the fields by the parser, not a clause",
-	"SelectStatement.FillValue":       "printed with %v inside fill(...): a number the parser produced itself",
-	"SelectStatement.Fill":            "printed as the fill option keyword chosen by a switch on the option",
-	"SelectStatement.Location":        "printed as TZ('<name>'); the name was validated by time.LoadLocation",
-	"SortField.Name":                  "the parser admits only the name time (parseSortFields rejects any other), so no quoting is needed",
-	"CreateSubscriptionStatement.Mode": "a keyword (ALL / ANY) stored from the token table",
-	"VarRef.Val":                      "built from the identifier segments by strings.Join and printed through QuoteIdent",
-	"VarRef.Type":                     "a data type name printed through DataType.String",
-	"Call.Args":                       "arguments are printed through their own String methods",
-	"RegexLiteral.Val":                "printed between slashes with the slash escaped (C02.formatters)",
-	"Query.Statements":                "statements are printed through their own String methods",
-	"Measurement.Regex":               "printed through RegexLiteral.String",
-	"Measurement.IsTarget":            "a flag the parser sets on INTO targets; not a printed clause",
-	"CreateUserStatement.Password":    "redacted by design (C15)",
+	"SelectStatement.IsRawQuery":        "derived from the fields by the parser, not a clause",
+	"SelectStatement.FillValue":         "printed with %v inside fill(...): a number the parser produced itself",
+	"SelectStatement.Fill":              "printed as the fill option keyword chosen by a switch on the option",
+	"SelectStatement.Location":          "printed as TZ('<name>'); the name was validated by time.LoadLocation",
+	"SortField.Name":                    "the parser admits only the name time (parseSortFields rejects any other), so no quoting is needed",
+	"CreateSubscriptionStatement.Mode":  "a keyword (ALL / ANY) stored from the token table",
+	"VarRef.Val":                        "built from the identifier segments by strings.Join and printed through QuoteIdent",
+	"VarRef.Type":                       "a data type name printed through DataType.String",
+	"Call.Args":                         "arguments are printed through their own String methods",
+	"RegexLiteral.Val":                  "printed between slashes with the slash escaped (C02.formatters)",
+	"Query.Statements":                  "statements are printed through their own String methods",
+	"Measurement.Regex":                 "printed through RegexLiteral.String",
+	"Measurement.IsTarget":              "a flag the parser sets on INTO targets; not a printed clause",
+	"CreateUserStatement.Password":      "redacted by design (C15)",
 	"SetPasswordUserStatement.Password": "redacted by design (C15)",
 }
 
